@@ -2,8 +2,10 @@
   Driver.HashD — line-protocol handlers for C01 / C13 / C14 (MD4, MD5, SHA-0/1, SHA-2, HMAC, streaming).
 
     hash <alg> <msg hex> <bitlen|None>                         one-shot digest
-    hashseq  <alg> | preset <n> | upd <hex> | … | fin <hex> [bitlen]
-                                                               streaming: `digest,bitcnt` after every upd, digest after fin
+    hashseq  <alg> | preset <n> | init | upd <hex> [bitlen] | … | fin <hex> [bitlen]
+                                                               streaming: `digest,bitcnt` after every upd, `-,bitcnt` after
+                                                               init (= h.initstate()), digest after fin; a bit length counts
+                                                               the bits of THAT piece (0 = none of it, on a non-empty buffer too)
     hashseqc <alg> | …same steps…                              code<->model only: `digest,padflag,bitcnt,padcnt` after every step
     hashcalls <alg> | …same steps, and `call <hex> <bitlen|None>` = h(M,bitlen)…
                                                                ONE object for the whole line: the outcome of every `call` step;
@@ -45,13 +47,16 @@ def specHash (a : Spec.Alg) (M : List Nat) (L : Option Nat) : String :=
 
 inductive Step
   | preset (n : Nat)
-  | upd (m : List Nat)
+  | upd (m : List Nat) (bitlen : Option Nat)
+  | init
   | fin (m : List Nat) (bitlen : Option Nat)
   | call (m : List Nat) (bitlen : Option Nat)
 
 def parseStep? : List String → Option Step
   | ["preset", n] => (parseNat? n).map .preset
-  | ["upd", x] => (parseBytes? x).map .upd
+  | ["upd", x] => (parseBytes? x).map (.upd · none)
+  | ["upd", x, l] => do let x ← parseBytes? x; let l ← parseOptNat? l; pure (.upd x l)
+  | ["init"] => some .init
   | ["fin", x] => (parseBytes? x).map (.fin · none)
   | ["fin", x, l] => do let x ← parseBytes? x; let l ← parseOptNat? l; pure (.fin x l)
   | ["call", x, l] => do let x ← parseBytes? x; let l ← parseOptNat? l; pure (.call x l)
@@ -75,9 +80,12 @@ def modelSeq (c : HashCore) (full : Bool) : HashObj → List Step → List Strin
   | o, .preset n :: rest, acc =>
     let o' : HashObj := { o with pad := { o.pad with bitcnt := n } }
     modelSeq c full o' rest ((if full then s!"-,{fmtBool o'.pad.padflag},{o'.pad.bitcnt},{o'.pad.padcnt}" else "-") :: acc)
-  | o, .upd m :: rest, acc =>
-    let (o', r) := c.update o m none false
+  | o, .upd m l :: rest, acc =>
+    let (o', r) := c.update o m l false
     modelSeq c full o' rest (fmtState full r o'.pad false :: acc)
+  | _, .init :: rest, acc =>
+    let o' := c.initstate
+    modelSeq c full o' rest ((if full then s!"-,{fmtBool o'.pad.padflag},{o'.pad.bitcnt},{o'.pad.padcnt}" else s!"-,{o'.pad.bitcnt}") :: acc)
   | o, .fin m l :: rest, acc =>
     let (o', r) := c.update o m l true
     modelSeq c full o' rest (fmtState full r o'.pad true :: acc)
@@ -89,30 +97,36 @@ def modelSeq (c : HashCore) (full : Bool) : HashObj → List Step → List Strin
 def modelCalls (c : HashCore) : HashObj → List Step → List String → List String
   | _, [], acc => acc.reverse
   | o, .preset n :: rest, acc => modelCalls c { o with pad := { o.pad with bitcnt := n } } rest acc
-  | o, .upd m :: rest, acc => modelCalls c (c.update o m none false).1 rest acc
+  | o, .upd m l :: rest, acc => modelCalls c (c.update o m l false).1 rest acc
+  | _, .init :: rest, acc => modelCalls c c.initstate rest acc
   | o, .fin m l :: rest, acc => modelCalls c (c.update o m l true).1 rest acc
   | o, .call m l :: rest, acc =>
     let (o', r) := c.call o m l
     modelCalls c o' rest (fmtE fmtBytes r :: acc)
 
-/-- spec side of a streaming line: defined when the line is `[preset n] upd* fin` with block-aligned pieces and a
-    block-aligned preset; the intermediate values are the serialised chaining values of the standard's iteration -/
+/-- spec side of a streaming line: defined when the line is `[preset n] (upd | init)* fin` with block-aligned pieces and a
+    block-aligned preset; the intermediate values are the serialised chaining values of the standard's iteration.
+    A piece given with a bit length L contributes its first L bits (L = 0: nothing, whatever the buffer holds; a
+    non-final L must be whole blocks and L ≤ 8|piece|); `init` starts a new message (chaining value and bit count of
+    the standard start again, whatever was fed before); a FINAL piece with L > 8|piece| must be refused (C01). -/
 def specSeq {σ} (h : Spec.MDHash σ) (steps : List Step) : Option (List String) :=
   let B := 8 * h.blockLen
   let rec go (s : σ) (done : Nat) : List Step → List String → Option (List String)
     | [], _ => none
     | .preset _ :: _, _ => none
-    | .upd m :: rest, acc =>
-      if (8 * m.length) % B ≠ 0 then none else
-      let s' := h.absorb s (Spec.groups h.blockLen (toSpecBytes m))
-      go s' (done + 8 * m.length) rest (s!"{fmtSpec (h.out s')},{done + 8 * m.length}" :: acc)
+    | .init :: rest, acc => go h.init 0 rest ("-,0" :: acc)
+    | .upd m l :: rest, acc =>
+      let L := l.getD (8 * m.length)
+      if L > 8 * m.length ∨ L % B ≠ 0 then none else
+      let s' := h.absorb s (Spec.groups h.blockLen (toSpecBytes (m.take (L / 8))))
+      go s' (done + L) rest (s!"{fmtSpec (h.out s')},{done + L}" :: acc)
     | [.fin m l], acc =>
-      let bits? : Option (List Bool) := match l with
-        | none => some (Spec.bytesToBits (toSpecBytes m))
-        | some l =>
-          -- an explicit bitlen counts the bits of this piece
-          if 0 < l ∧ l ≤ 8 * m.length then some (Spec.takeBits l (toSpecBytes m)) else none
-      bits?.map fun bits => (fmtSpec (h.hashFrom s done bits) :: acc).reverse
+      match l with
+      | none => some (fmtSpec (h.hashFrom s done (Spec.bytesToBits (toSpecBytes m))) :: acc).reverse
+      | some l =>
+        -- an explicit bitlen counts the bits of this piece; more bits than the piece holds: refused, whatever was fed before
+        if l ≤ 8 * m.length then some (fmtSpec (h.hashFrom s done (Spec.takeBits l (toSpecBytes m))) :: acc).reverse
+        else some ("ERR" :: acc).reverse
     | .fin _ _ :: _, _ => none
     | .call _ _ :: _, _ => none
   match steps with
